@@ -154,10 +154,61 @@ def body(ctx):
     ctx.outcome(got_cls)
 
 
+PAIR_MODES = ['ValueError', 'NameError', 'sys.exit', 'exit()', 'BadStr', 'Recursion', 'import pedal', 'open w', 'Syntax',
+              'NoArgs:KeyError', 'DeepChain', 'CloseStdout', 'Finally', 'AfterPrint']
+PAIR_ENTRIES = ['run-code', 'call', 'evaluate']
+
+
+def body_pairs(ctx):
+    """Two failing executions in the same sandbox: each call must add exactly one runtime feedback naming its own
+    failure, and the second must not be confused by the first."""
+    ops = []
+    for i in range(2):
+        m = PAIR_MODES[ctx.choose(len(PAIR_MODES), 'mode%d' % i)]
+        e = PAIR_ENTRIES[ctx.choose(len(PAIR_ENTRIES), 'entry%d' % i)]
+        ops.append((m, e))
+    threaded = bool(ctx.choose(2, 'threaded'))
+    if any(m in sc.COMPILE_FAIL and e != 'run-code' for m, e in ops):
+        return
+    funcs = "".join("def t_%d():\n%s\n    return 1\n" % (i, "\n".join("    " + l for l in sc.MODES[m].split("\n")))
+                    for i, m in enumerate(PAIR_MODES) if m not in sc.COMPILE_FAIL)
+    sb = sc.contextualize(funcs, {'answer.py': funcs})
+    sb.threaded = threaded
+    sb.allowed_time = 20
+    sc.sb_cmds.run()
+    case = {'ops': ops, 'threaded': threaded}
+    ctx.observe(repr(case))
+    ctx.set_sample(case)
+    ctx.mark_nontrivial(repr(case))
+    for k, (m, e) in enumerate(ops):
+        n0 = len(sc.MAIN_REPORT.feedback)
+        ctx.step((e, m))
+        try:
+            if e == 'run-code':
+                sc.sb_cmds.run(sc.MODES[m], filename='answer.py')
+            elif e == 'call':
+                sc.sb_cmds.call('t_%d' % PAIR_MODES.index(m))
+            else:
+                sc.sb_cmds.evaluate('t_%d()' % PAIR_MODES.index(m))
+        except BaseException as ex:   # noqa
+            ctx.fail({'symptom': 'exception escaped into the grader', 'exception': type(ex).__name__, 'mode': m,
+                      'entry': 'direct', 'threaded': threaded, 'position': k}, case=case, message=str(ex)[:150])
+            return
+        new = [f for f in sc.MAIN_REPORT.feedback[n0:] if f.category == 'runtime']
+        if sc.sb_cmds.get_exception() is None or len(new) != 1:
+            ctx.fail({'symptom': 'not exactly one runtime feedback', 'count': len(new), 'mode': m, 'threaded': threaded,
+                      'position': k}, case=case, labels=[f.label for f in new], exception=repr(sc.sb_cmds.get_exception())[:80])
+            return
+    ctx.outcome('two-failures')
+
+
 def bounds(tier):
-    return {'modes': len(MODE_NAMES), 'entries': ENTRIES, 'threaded': [False, True], 'tracers': TRACERS}
+    return {'pairs': '%d modes x %d entries, ordered pairs in one sandbox, threaded or not' % (len(PAIR_MODES), len(PAIR_ENTRIES)),
+            'modes': len(MODE_NAMES), 'entries': ENTRIES, 'threaded': [False, True], 'tracers': TRACERS}
 
 
 def phases(tier):
     return [Phase('terminations', body, setup=_setup, chunk=100, horizon_s=60,
-                  describe='mode x entry x threaded x tracer, full product')]
+                  describe='mode x entry x threaded x tracer, full product'),
+            Phase('two-failures', body_pairs, setup=_setup, chunk=100, horizon_s=60,
+                  describe='ordered pairs of failing executions in one sandbox')]
